@@ -69,6 +69,21 @@ def extract(config, repo=None, crate="msql_srv", force=False, target_tag=None):
         info["cached"] = True
         return out, info
     target = os.path.join(CACHE, "target-%s" % (target_tag or config))
+    # one extraction per target directory at a time (fingerprint removal + cargo must not interleave)
+    import fcntl
+    lock = open(os.path.join(CACHE, "lock-%s" % (target_tag or config)), "w")
+    fcntl.flock(lock, fcntl.LOCK_EX)
+    try:
+        if os.path.exists(out) and not force:
+            info["cached"] = True
+            return out, info
+        return _extract_locked(config, repo, crate, target, out, info)
+    finally:
+        fcntl.flock(lock, fcntl.LOCK_UN)
+        lock.close()
+
+
+def _extract_locked(config, repo, crate, target, out, info):
     # cargo's freshness cache would skip the wrapper: drop the member's fingerprints
     fp = os.path.join(target, "debug", ".fingerprint")
     pkg_prefixes = _member_prefixes(repo)
